@@ -30,7 +30,7 @@ BUDGET = {"quick": 60, "thorough": 1200}
 EXHAUSTIVE = {"quick": False, "thorough": True}
 N_FRAMES = 6
 N_LONG = 230
-FMTS = ["h5", "xtc", "xtc9", "trr", "dcd", "dcd0", "dcd4", "dcdfix", "mdcrd-hasbox", "mdcrd-nobox20", "nc", "mdcrd", "mdcrd-nobox", "xyz", "xyz-foreign", "xyz.gz", "lammpstrj", "dtr", "arc"]
+FMTS = ["h5", "xtc", "xtc9", "trr", "dcd", "dcd0", "dcd4", "dcdfix", "trr-double", "trr-vf", "mdcrd-hasbox", "mdcrd-nobox20", "nc", "mdcrd", "mdcrd-nobox", "xyz", "xyz-foreign", "xyz.gz", "lammpstrj", "dtr", "arc"]
 # dcd0 = DCD whose header frame count was never patched (0); dcd4 = CHARMM 4-dimensional DCD (see vlib/gen/files.py);
 # mdcrd-nobox = MDCRD without box lines (the default files carry a cell)
 # gro is not seekable (seek raises NotImplementedError) and is not in the property's list: not judged here.
@@ -138,7 +138,7 @@ def _file_for(fmt, N_FRAMES=N_FRAMES):
         path = os.path.join(_TMP, f"f_arc_{N_FRAMES}.arc")
         files.arc_write(path, files.ident_xyz(N_FRAMES, na))
     else:
-        ext = {"xtc9": "xtc", "dcd0": "dcd", "dcd4": "dcd", "dcdfix": "dcd", "mdcrd-nobox": "mdcrd", "mdcrd-hasbox": "mdcrd",
+        ext = {"xtc9": "xtc", "dcd0": "dcd", "dcd4": "dcd", "dcdfix": "dcd", "trr-double": "trr", "trr-vf": "trr", "mdcrd-nobox": "mdcrd", "mdcrd-hasbox": "mdcrd",
                "mdcrd-nobox20": "mdcrd", "xyz-foreign": "xyz"}.get(fmt, fmt)
         # mdcrd lines hold 10 numbers: 10 and 20 atoms end a frame on a full line; those two variants also tell the reader
         # up front whether box lines are present (has_box=) instead of letting it detect them
@@ -157,6 +157,9 @@ def _file_for(fmt, N_FRAMES=N_FRAMES):
         elif fmt == "dcdfix":
             os.rename(path, path + ".all")
             files.dcd_make_fixed(path + ".all", path, na, N_FRAMES)
+        elif fmt in ("trr-double", "trr-vf"):
+            # GROMACS-written TRR: double precision and/or velocity + force blocks (vlib/gen/files.py)
+            files.trr_write_foreign(path, t.xyz, t.unitcell_vectors, t.time, double=(fmt == "trr-double"), velocities=True, forces=True)
     with md.open(path, **files.open_kwargs(ext, na), **_OPENKW.get(fmt, {})) as fh:
         R = np.array(files.coords_of(ext, fh.read()))
     f, a = files.identify(R / (10.0 if ext == "arc" else files.FORMATS[ext]["unit"]))
@@ -194,7 +197,8 @@ def run_case(case, ctx):
     eof = [False] * nh
 
     def K(h, specific):
-        return f"{fmt}:position-overcounted-after-read()-reached-eof" if eof[h] else specific
+        # (same reader for the GROMACS-written TRR classes: one mechanism, one key)
+        return f"{ {'trr-double': 'trr', 'trr-vf': 'trr'}.get(fmt, fmt)}:position-overcounted-after-read()-reached-eof" if eof[h] else specific
     try:
         for h, op, arg in case["ops"]:
             fh = handles[h]
